@@ -179,10 +179,17 @@ func (p *Parser) WaitClose() {
 }
 
 func (p *Parser) readRune() rune {
-	r, size, err := p.r.ReadRune()
+	// Any byte that arrives ends the wait for the Escape key, also one
+	// that is only the beginning of a multi-byte character: ReadRune
+	// would return only once the character is complete
+	_, perr := p.r.Peek(1)
 	if p.escTimeout != nil {
 		p.escExpired = !p.escTimeout.Stop()
 	}
+	if perr != nil {
+		return eof
+	}
+	r, size, err := p.r.ReadRune()
 	if r == unicode.ReplacementChar && size == 1 {
 		// If invalid UTF-8, let's read the byte and deliver
 		// it as is
